@@ -197,6 +197,12 @@ func (e *Engine) compSortGuess(u *Unit, c string) string {
 	case "ChStamp":
 		return "(Array Int (Array Int Int))"
 	}
+	if strings.HasPrefix(c, "GC_") {
+		return "(Array Int Int)"
+	}
+	if strings.HasPrefix(c, "GB_") {
+		return "(Array Int (Array Int Int))"
+	}
 	if s, ok := u.pendingSorts[c]; ok {
 		return s
 	}
@@ -471,6 +477,24 @@ func (e *Engine) modTargetComps(u *Unit, ct *Contract, callee *ssa.Function, cc 
 			}
 		case "closed":
 			return [][2]string{{"ChClosed", "(Array Int Int)"}}
+		case "gc", "gb":
+			if lit, ok := call.Args[0].(*ast.BasicLit); ok {
+				nm := strings.Trim(lit.Value, "\"")
+				if fn.Name == "gc" {
+					return [][2]string{{"GC_" + mangle(nm), "(Array Int Int)"}}
+				}
+				return [][2]string{{"GB_" + mangle(nm), "(Array Int (Array Int Int))"}}
+			}
+		case "sentall":
+			t := e.staticTypeOf(callee, cc, call.Args[0])
+			if t != nil {
+				if st, ok := t.Underlying().(*types.Slice); ok {
+					if cht, ok := st.Elem().Underlying().(*types.Chan); ok {
+						c, s := u.chanElemComp(cht)
+						return [][2]string{{c, s}, {"ChSentN", "(Array Int Int)"}, {"ChStamp", "(Array Int (Array Int Int))"}}
+					}
+				}
+			}
 		case "mapof":
 			t := e.staticTypeOf(callee, cc, call.Args[0])
 			if mt, ok := t.Underlying().(*types.Map); ok {
